@@ -510,8 +510,12 @@ type iterState struct {
 	yielded  map[string]bool         // yielded and not deleted since
 	held     map[string]map[int]bool // values the entry has held since the iterator began
 	yields   int
-	cleared  bool  // clear(m) ran since the loop began
-	clearAt  int   // index of the last clear(m) since the loop began
+	cleared  bool           // clear(m) ran since the loop began
+	clearAt  int            // index of the last clear(m) since the loop began
+	startBk  unsafe.Pointer // bucket arrays of the map when the loop began
+	startOld unsafe.Pointer
+	detached bool  // at a clear(m), a bucket array the loop began on was no longer part of the map
+	sameSize bool  // a same-size grow was in progress at some step of the loop
 	startB   uint8 // log2 of the bucket count when the loop began
 }
 
@@ -579,7 +583,7 @@ func (prop) Run(scx driver.Scenario, ch *sim.Choices, keep bool) *driver.Result 
 	}
 	insertedAt := map[string]int{} // entry id -> index of the op that created it
 	model := map[int]*entry{}      // class -> entry
-	var nans []int            // values of the NaN-keyed entries (each insert is a new entry)
+	var nans []int                 // values of the NaN-keyed entries (each insert is a new entry)
 	iters := map[int]*iterState{}
 	nextVal := 0
 	hsum := uint64(1469598103934665603)
@@ -627,6 +631,11 @@ func (prop) Run(scx driver.Scenario, ch *sim.Choices, keep bool) *driver.Result 
 		if h.Growing() {
 			if h.SameSizeGrow() {
 				sameSize++
+				for _, it := range iters {
+					if !it.done {
+						it.sameSize = true
+					}
+				}
 			}
 			for _, it := range iters {
 				if !it.done {
@@ -671,6 +680,20 @@ func (prop) Run(scx driver.Scenario, ch *sim.Choices, keep bool) *driver.Result 
 			sort.Strings(missed)
 			if len(missed) > 0 {
 				fail("range-missed-entry", "op %d: iterator %d ended without yielding entr%s %v although present during the whole loop", i, id, map[bool]string{true: "y", false: "ies"}[len(missed) == 1], missed)
+				var tags []string
+				onlyNaN := true
+				for _, m := range missed {
+					if !strings.HasPrefix(m, "nan:") {
+						onlyNaN = false
+					}
+				}
+				if onlyNaN {
+					tags = append(tags, "only-nan-keyed-entries-missed")
+				}
+				if it.sameSize {
+					tags = append(tags, "same-size-grow-during-loop")
+				}
+				res.Items = []driver.Item{{Tags: tags, Detail: detail}}
 			}
 			mix(0xe0d)
 			return
@@ -701,8 +724,8 @@ func (prop) Run(scx driver.Scenario, ch *sim.Choices, keep bool) *driver.Result 
 				if it.cleared {
 					tags = append(tags, "cleared-during-loop")
 				}
-				if h != nil && h.BucketsLog2() != it.startB {
-					tags = append(tags, "grew-during-loop")
+				if it.detached {
+					tags = append(tags, "loop-began-on-a-bucket-array-replaced-before-the-clear")
 				}
 				res.Items = []driver.Item{{Tags: tags, Detail: detail}}
 				return
@@ -766,6 +789,7 @@ func (prop) Run(scx driver.Scenario, ch *sim.Choices, keep bool) *driver.Result 
 			logf("op %d: m[%s] = v%d", i, keySig(kt, op.Key), v)
 			if class == -1 {
 				nans = append(nans, v)
+				insertedAt[entryID(-1, v)] = i
 				noteValue(entryID(-1, v), v)
 			} else {
 				if e := model[class]; e != nil {
@@ -818,6 +842,14 @@ func (prop) Run(scx driver.Scenario, ch *sim.Choices, keep bool) *driver.Result 
 				noteDelete(entryID(class, 0))
 			}
 		case "clear":
+			if h != nil {
+				bk, old := h.BucketArrays()
+				for _, it := range iters {
+					if !it.done && (it.startBk != bk && it.startBk != old || it.startOld != nil && it.startOld != old && it.startOld != bk) {
+						it.detached = true
+					}
+				}
+			}
 			if pv := call(func() { maprt.MapClear(mt, h) }); pv != nil {
 				fail("unexpected-panic", "op %d: clear panicked: %v", i, pv)
 				continue
@@ -829,6 +861,7 @@ func (prop) Run(scx driver.Scenario, ch *sim.Choices, keep bool) *driver.Result 
 					it.clearAt = i
 				}
 			}
+			// (evaluated before the clear ran, see below)
 			for c := range model {
 				noteDelete(entryID(c, 0))
 			}
@@ -866,6 +899,7 @@ func (prop) Run(scx driver.Scenario, ch *sim.Choices, keep bool) *driver.Result 
 			}
 			if h != nil {
 				it.startB = h.BucketsLog2()
+				it.startBk, it.startOld = h.BucketArrays()
 			}
 			iters[op.It] = it
 			logf("op %d: range loop %d begins over %d entries", i, op.It, len(it.snapshot))
@@ -908,6 +942,9 @@ func (prop) Run(scx driver.Scenario, ch *sim.Choices, keep bool) *driver.Result 
 				fail("unhashable-key-no-panic", "op %d: %s with a slice held in an interface as key did not panic with a 'hash of unhashable type' run-time error (got %v)", i, op.K, pv)
 			}
 			res.Probes["unhashable-key-panics"]++
+		}
+		if keep && h != nil && os.Getenv("VERIF_DEBUG_MAP") != "" {
+			logf("    [B=%d growing=%v samesize=%v noverflow=%d len=%d]", h.BucketsLog2(), h.Growing(), h.SameSizeGrow(), h.NOverflow(), maprt.MapLen(h))
 		}
 		if len(maprt.Fatal) > 0 {
 			fail("runtime-fatal", "op %d: the map runtime reported %q in single-threaded use", i, maprt.Fatal[0])
